@@ -6,6 +6,7 @@
 //! the trace specification interprets (`tw`, `exp`, `grp`, ...).
 use crate::alloc::guarded;
 use crate::sut::*;
+pub use crate::basics::build_pn;
 use helgoboss_midi::*;
 use serde_json::{json, Map, Value};
 use std::collections::HashMap;
@@ -22,33 +23,6 @@ fn gets<'a>(o: &'a Map<String, Value>, k: &str, d: &'a str) -> &'a str {
 fn bytes_of(v: &Value) -> (u8, u8, u8) {
     let a = v.as_array().expect("message must be an array");
     (a[0].as_u64().unwrap() as u8, a[1].as_u64().unwrap() as u8, a[2].as_u64().unwrap() as u8)
-}
-
-/// Builds the real (N)RPN message through the public constructors.
-pub fn build_pn(msg: &[i64]) -> ParameterNumberMessage {
-    let ch = Channel::new(msg[0] as u8);
-    let num = U14::new(msg[1] as u16);
-    let reg = msg[3] != 0;
-    let b14 = msg[4] != 0;
-    let dt = msg[5];
-    if b14 {
-        let v = U14::new(msg[2] as u16);
-        if reg {
-            ParameterNumberMessage::registered_14_bit(ch, num, v)
-        } else {
-            ParameterNumberMessage::non_registered_14_bit(ch, num, v)
-        }
-    } else {
-        let v = U7::new(msg[2] as u8);
-        match (reg, dt) {
-            (true, 0) => ParameterNumberMessage::registered_7_bit(ch, num, v),
-            (true, 1) => ParameterNumberMessage::registered_increment(ch, num, v),
-            (true, _) => ParameterNumberMessage::registered_decrement(ch, num, v),
-            (false, 0) => ParameterNumberMessage::non_registered_7_bit(ch, num, v),
-            (false, 1) => ParameterNumberMessage::non_registered_increment(ch, num, v),
-            (false, _) => ParameterNumberMessage::non_registered_decrement(ch, num, v),
-        }
-    }
 }
 
 fn ints(v: &Value) -> Vec<i64> {
